@@ -188,7 +188,7 @@ func checkC09(P *Program, r *Result, tier string) {
 					if !ok {
 						continue
 					}
-					name := deref(fa.X.Type()).Underlying().(*types.Struct).Field(fa.Field).Name()
+					name := canonFieldName(fa.X.Type(), fa.Field)
 					for _, r2 := range *fa.Referrers() {
 						st, ok := r2.(*ssa.Store)
 						if !ok {
@@ -254,7 +254,7 @@ func checkC09(P *Program, r *Result, tier string) {
 				if typ == "DefaultReader" {
 					// the source must be the inert fake reader
 					ok := false
-					if mi, isMI := args[1].(*ssa.MakeInterface); isMI && strings.HasSuffix(mi.X.Type().String(), "fakeIOReader") {
+					if mi, isMI := args[1].(*ssa.MakeInterface); isMI && P.helperTypeOf(relBufiox, "BytesReader", "fakedIOReader") != "" && strings.HasSuffix(mi.X.Type().String(), "."+P.helperTypeOf(relBufiox, "BytesReader", "fakedIOReader")) {
 						ok = true
 					}
 					r.add("OWNER-GUARD", shortName(fn), "call", "a reader over a caller's buffer is fed by the inert source only", P.pos(instrPos(cc)), ok, "")
@@ -265,7 +265,7 @@ func checkC09(P *Program, r *Result, tier string) {
 			}
 		}
 	}
-	if fn := P.Method(relBufiox, "fakeIOReader", "Read"); r.require("bufiox.fakeIOReader.Read", fn != nil) {
+	if fn := P.Method(relBufiox, P.helperTypeOf(relBufiox, "BytesReader", "fakedIOReader"), "Read"); r.require("bufiox: Read of the inert source embedded in BytesReader", fn != nil) {
 		effs := globalEffects.of(fn)
 		r.add("NO-WRITE-CALLER", shortName(fn), "effects", "the source of a bytes-backed reader writes nothing", P.pos(fn.Pos()), len(effs) == 0, fmt.Sprint(len(effs), " effects"))
 	}
